@@ -117,6 +117,13 @@ def run(ck):
     for p in pool:
         edits |= single_edits(p, ALPHA_FULL)
     edits -= set(c["text"] for c in canon)
+    # names that are NOT documented categories: every key of the implementation's own rune-class table and a list of plausible
+    # ones, inside \\p{..} / \\P{..} - all of them must be rejected
+    keys = json.loads(ck.run_harness(["class-keys"]).stdout)
+    plausible = ["ASCII", "Any", "C", "Cc", "Cf", "Co", "Cs", "LC", "Digit", "Alpha", "Space", "Word", "Upper", "Lower", "Arabic", "Hebrew",
+                 "Thai", "Common", "Other", "latin", "lu", "LETTER", "Lx", "Ll2", "Nd_"]
+    odd = sorted(set(k for k in keys + plausible if k not in CATEGORIES and all(ch.isalnum() or ch in "_-" for ch in k) and k))
+    edits |= set(f % k for k in odd for f in ("\\p{%s}", "\\P{%s}", "[a\\p{%s}]", "x\\p{%s}+"))
     lst = canon + sem + [{"text": t, "kind": "sweep", "fam": "edit", "expect": ""} for t in sorted(edits)]
     vp.write_ndjson(os.path.join(ck.work, "list_in.ndjson"), lst)
     ck.run_sharded("pattern-list", "list_in.ndjson", "list_out.ndjson", timeout=1800)
